@@ -255,6 +255,16 @@ class Repo:
                 try:
                     val = fold(node.value, env)
                 except NotConst:
+                    if isinstance(node.value, ast.Dict) and isinstance(t, ast.Name):
+                        # partially constant table: keep the entries that fold
+                        part = {}
+                        for k, v in zip(node.value.keys, node.value.values):
+                            try:
+                                part[fold(k, env)] = fold(v, env)
+                            except (NotConst, TypeError, AttributeError):
+                                pass
+                        if part:
+                            env[t.id] = part
                     continue
                 if isinstance(t, ast.Name):
                     env[t.id] = val
